@@ -53,6 +53,108 @@ CLAIMED["C05"] = (
     "DESIGN.md §3 C05",
 )
 
+def _e(tech, text, note, ref):
+    return (tech, text, BASE_NOTE + note, ref)
+
+
+CLAIMED["C01"] = _e(
+    "Lean 4 proof: SRP degenerate-A algebra (ZMod), gate invariant by induction over every request sequence, "
+    "rejection of A = k*N, Dolev-Yao secrecy for a symbolic accessory; differential correspondence of op scripts on the "
+    "real handler (real SRP/HKDF/ChaCha/Ed25519 recorded as tables) and a numeric hsrp.Server stream with Lean SHA-512",
+    "Kernel-checked gate/algebra/rejection theorems for all histories and all A, M; scripts with degenerate A, replayed, "
+    "reordered and forged steps run on the real handler each run; secrecy of the code rests on symbolic crypto.",
+    "SRP-6a being a PAKE for A != 0 (mod N), SHA-512/HKDF/AEAD/Ed25519 hardness enter only as the shape of the symbolic "
+    "algebra (C01_symbolic is about a separate symbolic accessory, not tied by the differential run); Lean SHA-512 is "
+    "validated against hashlib, not proved.",
+    "DESIGN.md §3 C01",
+)
+CLAIMED["C02"] = _e(
+    "Lean 4 proof of the upgrade iff over every history of pair/unpair/verify steps on any number of connections, with "
+    "IdealSig/IdealAEAD/IdealDH hypothesis records (proved satisfiable); differential correspondence and oracle on real "
+    "HAPServerProtocol objects with an independent reference controller (real X25519/Ed25519/ChaCha20-Poly1305)",
+    "Kernel-checked iff and its corollaries (unknown id, other key, other exchange, no first step, removed id, "
+    "completeness) for all histories; 350+ scripts per quick run on the real protocol with forged/replayed/re-keyed M3.",
+    "Unforgeability/secrecy are hypothesis records with a toy satisfying instance; the driver instantiates crypto from "
+    "answer tables recorded on the real bytes; no symbolic attacker.",
+    "DESIGN.md §3 C02",
+)
+CLAIMED["C06"] = _e(
+    "Lean 4 proof: guard, error-atomicity, alignment invariant, last-admin rule, exactness of the list answer (via the "
+    "TLV theorems and an independent list decoder) over all op sequences, for every UUID parser; differential "
+    "correspondence on the real handler incl. persisted file; observer-list oracle",
+    "Kernel-checked theorems for every request history and every id/permission/malformed field; 1500+ histories per "
+    "quick run on real HAPServerHandler objects (admin, non-admin, unverified).",
+    "uuid.UUID parsing is a parameter (theorems hold for every parser); sessions are handler objects with the verified "
+    "flags set directly (pair-verify itself is C02).",
+    "DESIGN.md §3 C06",
+)
+CLAIMED["C08"] = _e(
+    "Lean 4 proof: SRP agreement over ZMod N (any N>0), long_to_bytes/bytes_to_long round trips, byte-level M/HAMK/K "
+    "agreement for any hash, C08_complete over a model of handle_pairing under functional crypto assumptions; numeric "
+    "hsrp.Server stream vs Lean (own SHA-512) and full M1..M6 exchanges of an independent RFC 5054/HAP controller with "
+    "forced leading-zero A, B, S, K",
+    "Kernel-checked agreement/completeness theorems for every code, salt, a, b; forced leading-zero vectors every run.",
+    "AEAD dec(enc p)=p and signature verify(sign m) are functional assumptions (CryptoOK); Lean SHA-512 validated "
+    "against hashlib, not proved; B = 0 (mod N) abort of the client (probability 2^-3072) not modelled.",
+    "DESIGN.md §3 C08",
+)
+CLAIMED["C09"] = _e(
+    "Lean 4 proof: conformance invariant over every op sequence, every value, every consistent property set and every "
+    "step-rounding function; rejection atomicity; shipped table (149 definitions regenerated from characteristics.json) "
+    "consistent by decide +kernel; differential correspondence with exact rationals; oracle written from the property",
+    "Kernel-checked invariant/reject theorems lifted to every shipped definition; ~4000 scripts per quick run over all "
+    "shipped definitions with boundary, huge, NaN/inf, wrong-type values and random consistent overrides.",
+    "The floating step-rounding expression and str(float) are parameters evaluated by real Python; getter callbacks, "
+    "raising/re-entrant setter callbacks are outside C09's model.",
+    "DESIGN.md §3 C09",
+)
+CLAIMED["C10"] = _e(
+    "Lean 4 proof: per-entry closed form of set_characteristics (status, independence, 204/207), timed-write rule by "
+    "induction over every history of prepare/advance/write/lose across connections and pids; differential "
+    "correspondence on a real bridge (virtual clock) incl. the HTTP layer; callback-log oracle",
+    "Kernel-checked theorems for every batch and every prepare history; 4000+ histories per quick run on the real driver "
+    "with raising/write-response setters, service and accessory callbacks, exact-boundary times.",
+    "Characteristic normalisation and callback outcomes are per-op parameters (C09's subject); batches address existing "
+    "characteristics with distinct ids; 'ev' flags are C12's.",
+    "DESIGN.md §3 C10",
+)
+CLAIMED["C14"] = _e(
+    "Lean 4 proof: hex and UUID-text round trips, load(persist s) = s for every state, legacy documents load as admin, "
+    "behaviour (list/admin/key lookup) preserved; differential correspondence through the real persist/load_into on "
+    "temp files incl. real pair-verify before/after the restart",
+    "Kernel-checked round-trip theorems for all states; ~1000 states per quick run reached through pairing histories.",
+    "JSON text serialisation and the Ed25519 raw-bytes round trip are trusted library behaviour.",
+    "DESIGN.md §3 C14",
+)
+CLAIMED["C15"] = _e(
+    "Lean 4 proof over an interleaving step relation (all schedules, faults, crash points): atomicity invariant, mutual "
+    "exclusion, convergence with the lock, progress; fault injection at every I/O call, child-process kill at every "
+    "source line, forced two-thread schedules on the real driver.persist; independent state-file reader as oracle",
+    "Kernel-checked atomicity/convergence for all interleavings of any number of jobs and mutations; the runtime part "
+    "(fsync/power loss, non-POSIX rename) is outside the model: partial for the runtime, as DESIGN says.",
+    "POSIX os.replace atomicity, page cache surviving process death, tempfile freshness are assumptions; the snapshot "
+    "is one atomic read in the model (the harness serialises it against pairing changes).",
+    "DESIGN.md §3 C15",
+)
+CLAIMED["C16"] = _e(
+    "Lean 4 proof: new sessions refused (from the C02 iff), open sessions cut after the acknowledgement for every "
+    "history incl. self-removal and the last-admin rule, served-only-paired invariant; differential correspondence and "
+    "oracle on real HAPServerProtocol sessions (real pair-verify and fast path)",
+    "Kernel-checked theorems for all histories; 260 histories per quick run with 2-4 controllers and 0-2 sessions each.",
+    "asyncio contract (no data_received after close); guarded requests are abstracted to served-iff-verified; removal "
+    "through the application API (driver.unpair) has no acknowledgement and is out of scope.",
+    "DESIGN.md §3 C16",
+)
+CLAIMED["C20"] = _e(
+    "Lean 4 proof over a two-thread small-step model (every merge of the step lists as a scheduler bit list): no stale "
+    "cache at quiescence, update not lost, subscribed connections end with the final value; deterministic preemption of "
+    "the real code under sys.settrace at every line (and opcode) boundary with the access log fed to the model",
+    "Kernel-checked for all schedules of the step model; exhaustive single preemption (double in thorough) on the real "
+    "code each run. Partial for the runtime: bytecode-internal switches and free-threaded builds are outside the model.",
+    "CPython GIL gives sequential consistency at bytecode boundaries; asyncio modelled as a FIFO popped by the loop thread.",
+    "DESIGN.md §3 C20",
+)
+
 NOT_YET = "not yet built in this round (model + theorems + correspondence pending; see DESIGN.md §7 build order)"
 NA = {}
 
